@@ -42,6 +42,9 @@
 (declare-fun split_count (Str Int) Int)
 (declare-fun split_piece (Str Int Int) Str)
 (assert (forall ((s Str) (c Int)) (! (>= (split_count s c) 1) :pattern ((split_count s c)))))
+; iterators over strings (iter.Seq[string]): how many items, and the items in order
+(declare-fun seq_len (Int) Int)
+(declare-fun seq_item_Str (Int Int) Str)
 ; the language of the STRING token of expr/Expr.g4:  '"' ( ~["\\] | '\\' ["\\/bfnrt] )* '"'   (abstract; what the
 ; proofs need: a token has both quotes)
 (declare-fun lex_string (Str) Bool)
